@@ -28,7 +28,8 @@ def _cli_model(prog):
     fi = prog.fn_role("__main__._build_parser", "build_parser")
     folder = Folder(prog)
     subs = {}  # var name -> sub-command name
-    for n in ast.walk(fi.node):
+    nodes = [n_ for f_ in prog.region(fi) for n_ in ast.walk(f_.node)]
+    for n in nodes:
         if isinstance(n, ast.Assign) and isinstance(n.value, ast.Call) and isinstance(n.value.func, ast.Attribute) \
                 and n.value.func.attr == "add_parser" and n.value.args:
             nm = folder.fold(n.value.args[0], {}, n.value)
@@ -37,7 +38,7 @@ def _cli_model(prog):
                     if isinstance(t, ast.Name):
                         subs[t.id] = nm
     model = {nm: [] for nm in subs.values()}
-    for n in ast.walk(fi.node):
+    for n in nodes:
         if isinstance(n, ast.Call) and isinstance(n.func, ast.Attribute) and n.func.attr == "add_argument" \
                 and isinstance(n.func.value, ast.Name) and n.func.value.id in subs:
             sub = subs[n.func.value.id]
